@@ -1187,6 +1187,26 @@ class RootG13:
     hi: Annotated[int, Dependent("lo", lambda lo: IntRange(lo, lo + 2))]
 
 
+class NumG14(ABC):
+    pass
+
+
+@dataclass
+class LitG14(NumG14):
+    v: Annotated[int, IntRange(0, 3)]
+
+
+@dataclass
+class NegG14(NumG14):
+    e: NumG14
+
+
+@dataclass
+class RootG14:
+    rows: list[list[NumG14]]  # nested plain lists: the element type of the outer list is itself a list type
+    cells: list[Annotated[list[NumG14], ListSizeBetween(1, 2)]]
+
+
 class EG12(ABC):
     pass
 
@@ -1244,6 +1264,7 @@ def extra_family():
         ("H3-evaluated-interval-list", [EH1, LitH1, NegH1, RootH3], RootH3, "IntervalRange tuple and sized list, annotations held as objects"),
         ("G11-float-int-bounds", [EG11, LeafG11, NegG11], EG11, "FloatRange(0, 9) with int-written bounds on a float field"),
         ("G12-tuple-rec-second", [EG12, LeafG12, PairG12], EG12, "recursion through the second component of a tuple[int, E] field"),
+        ("G14-nested-lists", [NumG14, LitG14, NegG14, RootG14], RootG14, "list[list[E]] and list[Annotated[list[E], ListSizeBetween]] fields"),
         ("G13-dependent-scope", [WindowG13, RootG13], RootG13, "Dependent('lo') with concrete children (direct and in a sized list) that have a field of the same name in between"),
         ("G9-layers-unreachable", [EG9, MidG9, LeafG9, NodeG9, IslandG9], EG9, "two abstract layers, all abstract types recursive, one unreachable class"),
     ]
